@@ -12,7 +12,7 @@ import tempfile
 import time
 
 VERIF = os.path.dirname(os.path.dirname(os.path.abspath(__file__)))
-REPO = '/repo'
+REPO = os.environ.get('VERIF_REPO', '/repo')  # the checks build from /repo's working tree; VERIF_REPO is for background sweeps on a snapshot
 TLA_CP = '/opt/veriftools/tla/tla2tools.jar:/opt/veriftools/tla/CommunityModules-deps.jar'
 NCPU = min(16, os.cpu_count() or 4)
 
@@ -63,6 +63,9 @@ def _build_harness(ctx, tags, race=False):
     if not os.path.isdir(src):
         shutil.copytree(os.path.join(VERIF, 'harness'), src)
         shutil.copy(os.path.join(REPO, 'go.sum'), os.path.join(src, 'go.sum'))
+        if REPO != '/repo':
+            gm = os.path.join(src, 'go.mod')
+            open(gm, 'w').write(open(gm).read().replace('=> /repo', '=> ' + REPO))
     out = ctx.path('harness-' + key.replace(',', '-').replace('+', '-'))
     r = sh(['go', 'build'] + (['-race'] if race else []) + ['-tags', tags, '-o', out, '.'], cwd=src, env=GOENV)
     if r.returncode != 0:
